@@ -28,6 +28,11 @@ def knots(rng, p, max_interior=5, clamped=True, allow_range=True, max_mult=None)
         kv += [F(1)] + [F(1) + F(i + 1, den) for i in range(p)]
     if allow_range and rng.random() < .35:
         a, b = F(rng.randint(-3, 3)), F(rng.choice([2, 3, 5, F(1, 2), F(7, 3)]))
+        r = rng.random()
+        if r < .2:
+            b = F(1)                      # a range of length exactly 1 that does not start at 0 (unless a = 0)
+        elif r < .45 and ints:
+            a = -b * ints[0]              # the first interior knot is exactly 0, the range starts below 0
         kv = [a + b * x for x in kv]
         count('knot_range', 'affine')
     else:
